@@ -10,6 +10,8 @@ from . import ebnf as E
 
 TRACE_CFG = 'SPECIFICATION Spec\nINVARIANT VerdictOk\nCHECK_DEADLOCK FALSE\n'
 CAP_PER_PARSE = 250
+CUT = {}            # id(log) -> the per-parse counter of instrument(); -1 = the parse was cut off
+NODES_PER_PARSE = 120000
 
 
 def val5(v):
@@ -53,7 +55,18 @@ def instrument(parser, log, log_reset):
     counter = [0]
     alive = []          # the results stay referenced for the duration of a parse: an id is never reused while it is in num
     left = [CAP_PER_PARSE]      # reductions still recorded in this parse (a hugely ambiguous parse is cut off: the snapshots are deep)
-    log_reset.append(lambda: (num.clear(), alive.clear(), left.__setitem__(0, CAP_PER_PARSE)))
+    CUT[id(log)] = left
+    room = [NODES_PER_PARSE]    # snapshot nodes still recorded in this parse (nested _ambig values are written out by value)
+    log_reset.append(lambda: (num.clear(), alive.clear(), left.__setitem__(0, CAP_PER_PARSE), room.__setitem__(0, NODES_PER_PARSE)))
+
+    def size(v, cap):
+        n, todo = 0, [v]
+        while todo and n < cap:
+            x = todo.pop()
+            n += 1
+            if isinstance(x, (list, tuple)):
+                todo.extend(x)
+        return n
 
     def wrap(rule, f):
         def g(children):
@@ -62,6 +75,10 @@ def instrument(parser, log, log_reset):
                 return f(children)
             left[0] -= 1
             kids = [val5(c) for c in children]
+            room[0] -= size(kids, room[0] + 2)
+            if room[0] < 0:
+                left[0] = -1                  # too much to write out: the parse is cut off (not judged)
+                return f(children)
             kid = [num.get(id(c), 0) if (hasattr(c, 'data') or hasattr(c, 'type')) else 0 for c in children]
             res = f(children)
             if hasattr(res, 'data') or hasattr(res, 'type'):       # a ?rule may return a bare token: it is numbered too
@@ -121,7 +138,7 @@ def observe_case(spec):
         try:
             with O.budget(20):
                 p.parse(text)
-            if len(log) - n0 >= CAP_PER_PARSE:
+            if len(log) - n0 >= CAP_PER_PARSE or CUT[id(log)][0] < 0:
                 del log[n0:]                  # cut off: not judged (a later reduction could refer to an unrecorded one)
                 case['cut_off'] = case.get('cut_off', 0) + 1
                 continue
@@ -427,11 +444,18 @@ def compile_phase(pid, tier, rng, ev, tmp):
     cases = [c for c in C.pmap(observe_compile, sps) if not c['skip']]
     ev.count('compiled_grammars_compared', len(cases))
     ev.count('compiled_rules_compared', sum(len(c['real']) for c in cases))
-    CH = 500
+    CH = 250
     paths = [C.write_batch({'cases': [{'G': c['G'], 'real': c['real']} for c in cases[o:o + CH]]}, tmp, 'compile_%d.json' % o) for o in range(0, len(cases), CH)]
-    results = C.tlc_parallel('TraceCompile', TRACE_CFG, paths, continue_=True, timeout=3000)
+    # Compile.tla enumerates helper numberings; on a rare grammar that blows up (seen once: one batch at 100% CPU for 20 minutes).
+    # The compiled rules are an INTERNAL projection (drift level), so a batch that does not finish in time is left unjudged and
+    # counted - it can neither raise nor hide an alarm on an observable.
+    results = C.tlc_parallel('TraceCompile', TRACE_CFG, paths, continue_=True, timeout=120 if tier == 'quick' else 900)
     drift = []
     for pi, res in enumerate(results):
+        if res.timeout:
+            ev.count('compile_batches_left_unjudged_after_timeout')
+            os.remove(paths[pi])
+            continue
         C.tlc_must_run(res, 'TraceCompile')
         ev.add_tlc('TraceCompile', res, 'trace')
         os.remove(paths[pi])
